@@ -159,7 +159,8 @@ class Net:
     """with Net(server_factory) as net: …  — installs and always restores the rebinding."""
 
     def __init__(self, server_factory, refuse=False, broken_pipe=True, idle_limit=3,
-                 read_budget=None):
+                 read_budget=None, sockets_only=False):
+        self.sockets_only = sockets_only     # scheduled mode: threads and select are handled by sched.py
         self.server_factory = server_factory
         self.refuse = refuse
         self.broken_pipe = broken_pipe
@@ -203,10 +204,11 @@ class Net:
                 if net.idle > net.idle_limit:
                     raise Idle()
             return ready, [], []
-        C.select = types.SimpleNamespace(select=fake_select, error=OSError)
-        C.NetworkingThread.start = lambda t: net.queue.append(t)
-        C.NetworkingThread.is_alive = lambda t: t in net.running or t in net.queue
-        C.NetworkingThread.join = lambda t, timeout=None: None
+        if not self.sockets_only:
+            C.select = types.SimpleNamespace(select=fake_select, error=OSError)
+            C.NetworkingThread.start = lambda t: net.queue.append(t)
+            C.NetworkingThread.is_alive = lambda t: t in net.running or t in net.queue
+            C.NetworkingThread.join = lambda t, timeout=None: None
         self.attached = (C.socket.socket is not real.socket)
         return self
 
